@@ -1,1 +1,134 @@
-//! placeholder
+//! C05 / C06 / C17 -- size() is the exact extent, the framing contract, the portable image.
+//!
+//! C05 "size() is the exact extent: within the buffer; truncating to it loses nothing": For every valid value,
+//!   size() equals the reference extent of its content (end of used data, rounded up to the type's alignment), never
+//!   exceeds the number of bytes the value was mapped from, and is sufficient: mapping only the first size() bytes
+//!   again succeeds and yields the same content and the same size().
+//! C06 "Framing contract: message prefixes are 'incomplete', extensions are the same": Let m be the first size()
+//!   bytes of any valid value.  Validating any proper prefix of m never reports a different valid message and never
+//!   reports a content error: it is rejected as InsufficientSize, or, only when nothing but trailing padding is
+//!   missing, accepted as the same content.  Validating m followed by arbitrary further bytes succeeds and yields the
+//!   same content and the same size().
+//! C17 "Portable composites have a platform-independent, padding-free image": Every type declared with
+//!   #[flat(portable = true)], and every container of portable items with a portable length type, has alignment 1 and
+//!   no padding anywhere, so its encoding is a pure function of its content: the concatenation, in declaration order,
+//!   of tag, fields, length and elements in their fixed byte order.  It can be mapped at any address and its bytes
+//!   equal the reference serialisation of the same content.
+//!
+//! Shape of every harness: a fully symbolic byte string of symbolic length <= N (BOUNDED, N stated per harness) that is
+//! ASSUMED to validate stands for "any value reachable by any construction / mutation history"; the reference extents
+//! are written by hand from the documented format (C layout rule; FlatVec<T,L>: length at 0, elements at
+//! ceil(size_of L, align_of T); FlexVec<T,L>: chain of [offset slot][payload] items, slot width max(size_of L, align T)).
+use crate::corpus::*;
+use crate::reference::*;
+use crate::util::*;
+use core::mem::{align_of, size_of};
+use flatty::error::ErrorKind;
+use flatty::portable::{be, le, Bool};
+use flatty::prelude::*;
+use flatty::{flat, FlatString, FlatVec, FlexVec};
+
+const fn max2(a: usize, b: usize) -> usize {
+    if a > b { a } else { b }
+}
+
+// ------------------------------------------------------------------------------------------------------------------
+// FlatVec<T, L>
+// ------------------------------------------------------------------------------------------------------------------
+
+/// C05 for FlatVec<T,L>.  reference: ALIGN = max(align L, align T); data at ceil(size_of L, align_of T);
+/// extent = ceil(data + n * size_of T, ALIGN)
+macro_rules! vec_c05 {
+    ($name:ident, $T:ty, $L:ty, $n:expr, $unw:expr) => {
+        #[kani::proof]
+        #[kani::unwind($unw)]
+        fn $name() {
+            type V = FlatVec<$T, $L>;
+            const N: usize = $n; // BOUNDED: buffer <= N bytes
+            const A: usize = max2(align_of::<$T>(), align_of::<$L>());
+            const ES: usize = size_of::<$T>();
+            let data = ceil_to(size_of::<$L>(), align_of::<$T>());
+            let (len, off) = any_len_off(N, A);
+            kani::assume(off == 0);
+            let b = sym_slice(len, A, off, N);
+            let v = match V::from_bytes(b) { Ok(v) => v, Err(_) => return };
+            let n = v.len();
+            let s = v.size();
+            assert!(s == ceil_to(data + n * ES, A), "C05: size() differs from the reference extent");
+            assert!(s <= len, "C05: size() exceeds the mapped bytes");
+            assert!(s % A == 0);
+            if s > len { return; }
+            let w = match V::from_bytes(&b[..s]) { Ok(w) => w, Err(_) => panic!("C05: the first size() bytes do not validate") };
+            assert!(w.len() == n, "C05: truncated value has a different length");
+            assert!(w.size() == s, "C05: truncated value has a different size()");
+            let (vs, ws) = (v.as_slice(), w.as_slice());
+            let mut i = 0;
+            while i < N {
+                if i < n { assert!(vs[i] == ws[i], "C05: truncated value has different elements"); }
+                i += 1;
+            }
+        }
+    };
+}
+
+/// C06 for FlatVec<T,L>: m = b[..s0] is a message (valid, size() == its length); every proper prefix is incomplete
+/// (or the same content when only padding is cut); b = m ++ arbitrary suffix is the same message.
+macro_rules! vec_c06 {
+    ($name:ident, $T:ty, $L:ty, $n:expr, $unw:expr) => {
+        #[kani::proof]
+        #[kani::unwind($unw)]
+        fn $name() {
+            type V = FlatVec<$T, $L>;
+            const N: usize = $n; // BOUNDED: message ++ suffix <= N bytes
+            const A: usize = max2(align_of::<$T>(), align_of::<$L>());
+            const ES: usize = size_of::<$T>();
+            let data = ceil_to(size_of::<$L>(), align_of::<$T>());
+            let (len, off) = any_len_off(N, A);
+            kani::assume(off == 0);
+            let b = sym_slice(len, A, off, N);
+            let s0: usize = kani::any();
+            kani::assume(s0 <= len);
+            let m = match V::from_bytes(&b[..s0]) { Ok(m) => m, Err(_) => return };
+            kani::assume(m.size() == s0);
+            let n = m.len();
+            let ms = m.as_slice();
+            // proper prefix
+            let k: usize = kani::any();
+            kani::assume(k < s0);
+            match V::from_bytes(&b[..k]) {
+                Err(e) => assert!(e.kind == ErrorKind::InsufficientSize, "C06: a prefix is rejected with a content error"),
+                Ok(p) => {
+                    assert!(k >= data + n * ES, "C06: a prefix missing more than padding is accepted");
+                    assert!(p.len() == n, "C06: a prefix is accepted as a different message");
+                    let ps = p.as_slice();
+                    let mut i = 0;
+                    while i < N {
+                        if i < n { assert!(ps[i] == ms[i], "C06: a prefix is accepted as a different message"); }
+                        i += 1;
+                    }
+                }
+            }
+            // extension: b = m ++ (len - s0 arbitrary bytes)
+            match V::from_bytes(b) {
+                Err(_) => panic!("C06: message followed by further bytes is rejected"),
+                Ok(x) => {
+                    assert!(x.len() == n, "C06: extension changes the content");
+                    assert!(x.size() == s0, "C06: extension changes size()");
+                    let xs = x.as_slice();
+                    let mut i = 0;
+                    while i < N {
+                        if i < n { assert!(xs[i] == ms[i], "C06: extension changes the content"); }
+                        i += 1;
+                    }
+                }
+            }
+        }
+    };
+}
+
+vec_c05!(c05_vec_u8_u16, u8, u16, 10, 12);
+vec_c05!(c05_vec_u8_u32, u8, u32, 12, 14);
+vec_c05!(c05_vec_u32_u8, u32, u8, 16, 18);
+vec_c06!(c06_vec_u8_u16, u8, u16, 10, 12);
+vec_c06!(c06_vec_u8_u32, u8, u32, 12, 14);
+vec_c06!(c06_vec_u32_u8, u32, u8, 16, 18);
